@@ -1124,6 +1124,21 @@ theorem clone_deep_reduction (hstep : step_footprint_full) : clone_deep_exec_ful
   fun n k ops1 ops2 q f tr hex hm hc =>
     clone_deep_history n k ops1 ops2 q f tr hex (fun op ho => ⟨hm op ho, hstep op⟩) hc
 
+/-- the hypotheses of `clone_deep_history` are satisfiable: `b = a.clone()` of `a = [1]`, then `a` is destroyed, another
+root is created and copied over `a` — `b` still denotes `[1]` -/
+example : content 3 (run true (initState 3) ([.ctorArr 0 [.int 1]] ++ [.clone 1 ⟨0, []⟩] ++ [.drop 0, .ctorLit 2 (.int 5), .copy 0 ⟨2, []⟩])).heap
+    (slotV (run true (initState 3) ([.ctorArr 0 [.int 1]] ++ [.clone 1 ⟨0, []⟩] ++ [.drop 0, .ctorLit 2 (.int 5), .copy 0 ⟨2, []⟩])) 1) =
+    some (Tree.arr [Tree.num (Dy.ofInt 1)]) :=
+  clone_deep_history 3 1 _ _ _ 3 _ (by rfl)
+    (by
+      intro op hop
+      simp only [List.mem_cons, List.mem_nil_iff, or_false] at hop
+      rcases hop with rfl | rfl | rfl
+      · exact ⟨rfl, stepFootprint_drop 0⟩
+      · exact ⟨rfl, stepFootprint_ctorLit 2 _⟩
+      · exact ⟨rfl, stepFootprint_copy 0 _⟩)
+    (by rfl)
+
 /-- ownership is satisfiable: a root holding a scalar owns the empty set; a root holding the only handle to a leaf block owns it -/
 example : Iso (initState 2) 0 (fun _ => False) := by
   refine ⟨?_, ?_, ?_, ?_, ?_⟩
